@@ -93,17 +93,20 @@ CLAIMED = {
 
 # sentences added to a claim after its first version (rules added later); appended to the claim text
 EXTRA = {
-    "C07": "Also decided: every formatted element is printed into a buffer large enough for its widest rendering plus the terminator (IX double format included), and every formatted writer starts a new line on the running element ordinal modulo the column count the reader assumes for that type (the unblocked CHAR writer: the block size is a multiple of the column count).",
-    "C10": "Also decided: the index list ExtESmry::loadData hands to load_esmry together with the request vector (used there as request[list[n]]) holds iteration ordinals - a zero-initialised counter appended without side effect and incremented exactly once, unconditionally, per request entry.",
-    "C03": "Also decided: the next-step constructor that takes an end time differs from the one that does not in nothing but m_end_time (the last state of a schedule is built without one); where an update method installs a new value only if it compares different (Well::update*, Group::updateProduction, GuideRateConfig::update_model), the operator== of that class compares every data member; a local variable named after a record item is initialised from the item of that name.",
-    "C13": "Also decided: make_grid_units, EclipseGrid::save and the EGRID loader map the grid length-unit names METRES/FEET/CM to the same unit system; the NNC1/NNC2 cell numbers that save() stores as global index + 1 are decoded by EclIO::EGrid as (element - 1) through a parameter of kind global, never active (kinds derived from which ACTNUM map a parameter subscripts and which bound it is compared with).",
-    "C18": "Also decided: an empty or cleared match is no set at all (MatchingEntities never keeps an empty-but-present set), so that false sub-conditions contribute no set to later unions and intersections.",
-    "C17": "Also decided: every scalar (reduction) function - SUM, PROD, AVEA, AVEG, AVEH, MAX, MIN, NORM1, NORM2, NORMI - computes its documented formula over the defined values (canonical expression trees including the fold's initial value and step).",
-    "C04": "Also decided (shared with C03): a local variable named after a record item is initialised from the item of that name (numbered siblings K1/K2, I1/I2 included).",
-    "C12": "Also decided: in Box.cpp every declaration, default look-up, range assertion and extent/offset assignment stays on one axis (i/NX/I*/[0], j/NY/J*/[1], k/NZ/K*/[2]).",
+    "C05": "Also decided: a lazily built mutable cache (UDQActive::output_data behind iuad(), SummaryState name lists, ...) is emptied on every path from a modification of the member it is built from to the return of that function.",
+    "C08": "Also decided: ERst::initUnified visits every array, records index and report number of each SEQNUM in the same branch and builds half-open ranges [start(k), start(k+1)) stored under report number k; every loop over a range is first <= i < second; the record-framing rules of the unformatted reader (head/tail, payload, byte order) are evaluated for this property too.",
+    "C09": "Also decided: every branch of mul_unit / div_unit returns a unit whose SI-to-deck factor is the product / quotient of its operands' factors in all four unit systems.",
+    "C07": "Also decided: every formatted element is printed into a buffer large enough for its widest rendering plus the terminator (IX double format included), and every formatted writer starts a new line on the running element ordinal modulo the column count the reader assumes for that type (the unblocked CHAR writer: the block size is a multiple of the column count). The writers tag int/float/double/bool vectors as INTE/REAL/DOUB/LOGI, the unformatted reader reads the payload between head and tail markers, the pieces cut from the printf rendering follow from its precision, sizeOnDiskFormatted equals (as a symbolic term) what writeFormattedArray emits, and no sticky manipulator is applied to the file stream.",
+    "C10": "Also decided: the index list ExtESmry::loadData hands to load_esmry together with the request vector (used there as request[list[n]]) holds iteration ordinals - a zero-initialised counter appended without side effect and incremented exactly once, unconditionally, per request entry. ExtESmry seeks vector k at RSTEP header + two INTE arrays + k x (header + REAL array) (symbolic term; header bytes taken from writeBinaryHeader), and the writer removes a stale ESMRY file unconditionally because the converter refuses to overwrite one.",
+    "C03": "Also decided: the next-step constructor that takes an end time differs from the one that does not in nothing but m_end_time (the last state of a schedule is built without one); where an update method installs a new value only if it compares different (Well::update*, Group::updateProduction, GuideRateConfig::update_model), the operator== of that class compares every data member; a local variable named after a record item is initialised from the item of that name. An integer parameter validated by a throwing range guard is used outside its guards (the validated report step is the one acted on).",
+    "C13": "Also decided: make_grid_units, EclipseGrid::save and the EGRID loader map the grid length-unit names METRES/FEET/CM to the same unit system; the NNC1/NNC2 cell numbers that save() stores as global index + 1 are decoded by EclIO::EGrid as (element - 1) through a parameter of kind global, never active (kinds derived from which ACTNUM map a parameter subscripts and which bound it is compared with). All implementations of global <-> (i,j,k) agree with the natural ordering (symbolic terms), GRIDHEAD slots 1..3 carry nx, ny, nz on both sides, and every corner coordinate is interpolated on its own pillar at its own depth.",
+    "C18": "Also decided: an empty or cleared match is no set at all (MatchingEntities never keeps an empty-but-present set), so that false sub-conditions contribute no set to later unions and intersections. ASTNode::eval dispatches AND/OR to the fold over every child and everything else to the comparison of child 0 with child 1; inside the parser every sub-result is error-tested, operands are added in order and tokens consumed; a numeric MNTH operand is rounded to nearest.",
+    "C17": "Also decided: every scalar (reduction) function - SUM, PROD, AVEA, AVEG, AVEH, MAX, MIN, NORM1, NORM2, NORMI - computes its documented formula over the defined values (canonical expression trees including the fold's initial value and step). The compound operators of UDQSet/UDQScalar are element-wise over the whole set with undefined operands propagating, and parse_factor consumes signs and parentheses as the grammar says.",
+    "C04": "Also decided (shared with C03): a local variable named after a record item is initialised from the item of that name (numbered siblings K1/K2, I1/I2 included). The ACTIONX_WELL_EVENT marker is written while snapshots.back() is still the action's step.",
+    "C12": "Also decided: in Box.cpp every declaration, default look-up, range assertion and extent/offset assignment stays on one axis (i/NX/I*/[0], j/NY/J*/[1], k/NZ/K*/[2]). assign_deck writes explicit values always and a defaulted entry never over a cell that has a value (truth table over all status pairs, both storages).",
     "C16": "Also decided: in Math.hpp a result that starts as a copy of an Evaluation argument and has its value replaced also has its derivatives rewritten slot by slot, cleared, or is assigned a scalar.",
     "C20": "Also decided: a range validator that rejects lo > hi tests the upper limit on hi; an integer taken from the deck is not used as a divisor without a zero test; the INCLUDE handler refuses a file that is already on the input stack and the record view is never extended across the end of the file it started in.",
-    "C06": "Also decided: every connection selector of Well.cpp (WPIMULT, WELOPEN, COMPLUMP, WINJCLN, ...) compares the connection's I/J/K/completion number with the record item of that name, lower bounds with match_ge and upper bounds with match_le; in the per-cell loops of COMPDAT/COMPTRAJ a quantity that is tested against its sentinel and defaulted from the current cell has been assigned earlier in the same iteration.",
+    "C06": "Also decided: every connection selector of Well.cpp (WPIMULT, WELOPEN, COMPLUMP, WINJCLN, ...) compares the connection's I/J/K/completion number with the record item of that name, lower bounds with match_ge and upper bounds with match_le; in the per-cell loops of COMPDAT/COMPTRAJ a quantity that is tested against its sentinel and defaulted from the current cell has been assigned earlier in the same iteration. The stored CF, Kh and Peaceman denominator satisfy CF x denominator = angle x Kh on every path of loadCOMPDAT (monomial identity), the denominator is ln(r0/rw) + skin, I/J/K1/K2 are item - 1 and every layer K1..K2 gets a connection.",
     "C11": "Also decided: a process-local pointer that the owner's serializeOp re-binds after unpacking (Well::unit_system in Schedule::serializeOp) is re-bound in every instance - the call sits in range-for loops over the whole containers; the four pack/unpack drivers of the generic Serializer reset operation, pointer map, counter and buffer before every pass over the data.",
 }
 
